@@ -2741,6 +2741,11 @@ int32 parseFinished(ssl_t *ssl, int32 hsLen,
     {
         if (!(ssl->flags & SSL_FLAGS_RESUMED))
         {
+#ifdef USE_SERVER_SIDE_SSL
+            /* The client is verified: the cached session may now be offered
+               for resumption (see matrixRegisterSession). */
+            matrixUpdateSession(ssl);
+#endif
             rc = SSL_PROCESS_DATA;
         }
         else
